@@ -325,6 +325,28 @@ CORPUS = [
                   {"name": "c2", "stage": 0, "refs": [1], "wa": {"aggregate": True}},
                   {"name": "c3", "stage": 1, "refs": [1, 2], "wa": {"aggregate": True}}],
      "cont": [], "scripts": {}, "seed": 5, "k": 3},
+    # a post-mortem notification that is still queued when the controller stops its component (a peer failed) must be
+    # dropped when it is finally delivered: c0's only execution ends ResourceExhausted (restartable), c1 fails.
+    # Components: 0 = stage0.c0, 1 = stage0.c1
+    {"template": [{"name": "c0", "stage": 0, "refs": [], "wa": {}},
+                  {"name": "c1", "stage": 0, "refs": [], "wa": {}}],
+     "cont": [], "scripts": {"stage0.c0": ["ResourceExhausted"], "stage0.c1": ["UnknownIssue"]}, "seed": 6, "k": 1,
+     "schedules": [[["sched"], ["sched"], ["exit", 1], ["pm", 1], ["exit", 0], ["fin", 1], ["pm", 0], ["fin", 0]]]},
+    {"template": [{"name": "c0", "stage": 0, "refs": [], "wa": {}},
+                  {"name": "c1", "stage": 0, "refs": [], "wa": {}}],
+     "cont": [], "scripts": {"stage0.c0": ["ResourceExhausted"], "stage0.c1": ["UnknownIssue"]}, "seed": 6, "k": 6},
+    # real engines: a restart followed by three launches that raise, then success - one restart and three
+    # re-submissions are within both budgets, the component must end finished
+    {"template": [{"name": "c0", "stage": 0, "refs": [], "wa": {}},
+                  {"name": "c1", "stage": 0, "refs": [0], "wa": {}}],
+     "cont": [], "real": True, "seed": 8, "k": 3,
+     "scripts": {"stage0.c0": ["ResourceExhausted", "SubmissionFailed:os", "SubmissionFailed:launch",
+                               "SubmissionFailed:os", "Success"]}},
+    {"template": [{"name": "c0", "stage": 0, "refs": [], "wa": {"maxRestarts": 2}},
+                  {"name": "c1", "stage": 0, "refs": [0], "wa": {}}],
+     "cont": [], "real": True, "seed": 9, "k": 3,
+     "scripts": {"stage0.c0": ["SubmissionFailed:launch", "ResourceExhausted", "SubmissionFailed",
+                               "ResourceExhausted", "SubmissionFailed:os", "SubmissionFailed:os", "Success"]}},
 ]
 
 
